@@ -29,6 +29,7 @@ class Ctx:
         self._effects = None
         self._norm = None
         self.use_cache = use_cache  # the cache key is the digest of the (overlaid) sources
+        self.deferred: list = []  # refusals of independent rule groups (see attempt)
         self.chk = Check(prop, tier, seed)
         self.engines: list[PathEngine] = []
 
@@ -88,10 +89,23 @@ class Ctx:
         c.prop = prop
         c.chk = Check(prop, self.tier, self.seed)
         c.engines = []
+        c.deferred = []
         c.__dict__.pop("_sub_paths", None)
         c.__dict__.pop("_sub_memo", None)
         c.__dict__.pop("_raise_probe", None)
         return c
+
+    def attempt(self, fn, *args, **kw):
+        """Runs one independent group of rules.  A refusal (AnalysisError) of
+        this group is remembered and the other groups are still evaluated: a
+        violation elsewhere must not be hidden behind a shape this group does
+        not recognise.  Without any violation the first refusal is the run's
+        result (exit 2)."""
+        try:
+            return fn(*args, **kw)
+        except AnalysisError as e:
+            self.deferred.append(e)
+            return None
 
     def record_analysed(self):
         a = self.chk.analysed
@@ -131,6 +145,12 @@ def run_property(prop, tier="quick", seed=0, overlay=None, root=REPO_ROOT, write
         ctx.chk.undecided = list(getattr(mod, "UNDECIDED", []))
         ctx.chk.assumptions = list(getattr(mod, "ASSUMPTIONS", []))
         mod.run(ctx)
+        if ctx.deferred:
+            # one or more rule groups refused; the others were evaluated
+            if ctx.chk.unlisted():
+                print(f"note: {len(ctx.deferred)} rule group(s) could not be evaluated: {ctx.deferred[0]}") if not quiet else None
+            else:
+                raise ctx.deferred[0]
         # a rule that was declared but judged nothing passed vacuously: the
         # code that evaluates it was skipped or its anchor vanished
         empty = sorted(set(ctx.chk.rule_texts) - {i["rule"] for i in ctx.chk.instances})
